@@ -59,6 +59,7 @@ type Response struct {
 	PartialMsg          string        // success with partial-success message
 	PartialN            int64
 	HoldUntilClientGone bool // never answer: hold until the client hangs up; then record when
+	Chunked             bool // HTTP: flush the header first so that the body is sent chunked (no Content-Length)
 }
 
 type Script func(r *Request) Response
@@ -322,6 +323,11 @@ func (s *Server) serveHTTP(w http.ResponseWriter, req *http.Request) {
 	s.AnsweredAt = append(s.AnsweredAt, time.Now())
 	s.mu.Unlock()
 	w.WriteHeader(st)
+	if resp.Chunked {
+		if f, ok := w.(http.Flusher); ok {
+			f.Flush()
+		}
+	}
 	w.Write(out)
 }
 
